@@ -510,7 +510,7 @@ func builtinArrayLastIndexOf(call FunctionCall) Value {
 	if 0 > index {
 		index += length
 	}
-	if index > length {
+	if index >= length {
 		index = length - 1
 	} else if 0 > index {
 		return intValue(-1)
